@@ -565,10 +565,10 @@ class Executor:
         execution, and the other is a term built only from symbols that existed before that allocation (it then
         denotes an object that already existed), or another allocation."""
         for x, y in ((a, b), (b, a)):
-            nx = self.fresh_refs.get(x.get_id())
+            nx = self.fresh_refs.get(x.get_id(), (None,))[0]
             if nx is None:
                 continue
-            ny = self.fresh_refs.get(y.get_id())
+            ny = self.fresh_refs.get(y.get_id(), (None,))[0]
             if ny is not None:
                 return ny != nx
             if self.newest_symbol(y) < nx:
@@ -579,7 +579,7 @@ class Executor:
         i = t.get_id()
         c = self._newest_cache.get(i)
         if c is not None:
-            return c
+            return c[0]
         best = 0
         if z3.is_const(t) and t.decl().kind() == z3.Z3_OP_UNINTERPRETED:
             nm = t.decl().name()
@@ -593,7 +593,7 @@ class Executor:
                 best = max(best, self.newest_symbol(ch))
         elif z3.is_quantifier(t):
             best = 10 ** 9
-        self._newest_cache[i] = best
+        self._newest_cache[i] = (best, t)       # the term is kept alive: z3 reuses the ids of collected ASTs
         return best
 
     def store(self, arr, idx, val):
@@ -693,7 +693,7 @@ class Executor:
     def alloc(self, st, ty, hint='obj'):
         """Fresh reference, distinct from every reference allocated so far."""
         r = self.fresh_z(z3.IntSort(), hint)
-        self.fresh_refs[r.get_id()] = self.counter
+        self.fresh_refs[r.get_id()] = (self.counter, r)     # (the term is kept alive: ids of collected ASTs are reused)
         al = self.heap_get(st, 'alloc', z3.ArraySort(z3.IntSort(), z3.BoolSort()))
         st = st.assume(r > 0, z3.Not(z3.Select(al, r)))
         st = st.setheap('alloc', z3.Store(al, r, z3.BoolVal(True)))
@@ -898,6 +898,15 @@ class Executor:
             if g is not None and g[0] == 'module':
                 raise VCError(f'module attribute {ast.unparse(e)} outside subset')
         # nested class reference LabelScope.LabelInfo handled in calls
+        if isinstance(e.value, ast.Name) and e.value.id == 'cls' and cx.fi is not None and cx.fi.kind == 'classmethod' \
+                and cx.cls is not None:
+            # cls.CONST inside a classmethod: read as the defining class's constant (subclasses do not rebind them here)
+            oc, cst = self.repo.class_const(cx.cls.name, e.attr)
+            if cst is not None:
+                sub = Cx(None, spec=cx.spec, depth=cx.depth, root=cx.root, label=cx.label)
+                sub.module = oc.module
+                sub.cls = oc
+                return self.ev(st, cst, sub, k)
 
         def with_obj(st, obj):
             return self.get_attr(st, obj, e.attr, cx, e, k)
@@ -1374,6 +1383,31 @@ class Executor:
     def ev_Subscript(self, st, e, cx, k):
         if isinstance(e.slice, ast.Slice):
             return self.bi.slice(st, e, cx, k)
+        # Class.TABLE[key] with TABLE a class-level dict literal of constants: read without building the dict
+        # (same values, no allocation: the table is never mutated)
+        v = e.value
+        if isinstance(v, ast.Attribute) and isinstance(v.value, ast.Name) and v.value.id not in st.vars \
+                and v.value.id not in cx.spec_vars:
+            g = self.resolve_global(cx, v.value.id)
+            if g is not None and g[0] == 'class':
+                oc, cst = self.repo.class_const(g[1].name, v.attr)
+                if isinstance(cst, ast.Dict) and cst.keys and all(isinstance(x, ast.Constant) for x in cst.keys) \
+                        and all(isinstance(x, ast.Constant) and isinstance(x.value, (int, str)) and
+                                not isinstance(x.value, bool) for x in cst.values) \
+                        and len({type(x.value) for x in cst.values}) == 1 and len({type(x.value) for x in cst.keys}) == 1:
+                    def ftab(st, key):
+                        kty = STR if isinstance(cst.keys[0].value, str) else INT
+                        kz = self.coerce(key, kty).z
+                        mk = (lambda c_: z3.StringVal(c_)) if kty is STR else I
+                        vty = STR if isinstance(cst.values[0].value, str) else INT
+                        mv = (lambda c_: z3.StringVal(c_)) if vty is STR else I
+                        hit = z3.Or([kz == mk(x.value) for x in cst.keys])
+                        val = mv(cst.values[-1].value)
+                        for kx, vx in reversed(list(zip(cst.keys, cst.values))[:-1]):
+                            val = z3.If(kz == mk(kx.value), mv(vx.value), val)
+                        return self.guard_raise(st, cx, z3.Not(hit), 'KeyError', e, lambda s: k(s, SV(vty, z3.simplify(val))),
+                                                why=f'{ast.unparse(v)}[...]')
+                    return self.ev(st, e.slice, cx, ftab)
 
         def f(st, vs):
             base, idx = vs
